@@ -16,6 +16,7 @@ import (
 	"regexp"
 	"runtime/debug"
 	"strings"
+	"time"
 
 	gonnx "github.com/advancedclimatesystems/gonnx"
 	"github.com/advancedclimatesystems/gonnx/onnx"
@@ -49,6 +50,8 @@ type Case struct {
 	// whatever part of it is not needed.
 	Prelude []Case `json:"prelude,omitempty"`
 }
+
+var fixedMtime = time.Unix(1_000_000_000, 0)
 
 // Outcome of a guarded call.
 type outcome struct {
@@ -120,6 +123,9 @@ func load(c *Case, env *Env) (m *gonnx.Model, o outcome) {
 		if err := os.WriteFile(p, c.Data, 0o644); err != nil {
 			panic(err)
 		}
+		// The medium preserves timestamps the way `rsync -t`, `cp -p`, tar extraction and reproducible builds do: every
+		// version of the file carries the same modification time, whatever it contains.
+		os.Chtimes(p, fixedMtime, fixedMtime)
 		o = guard(func() (err error) { m, err = gonnx.NewModelFromFile(p); return })
 		os.Remove(p)
 	case "file-missing", "file-dir":
